@@ -22,7 +22,10 @@ pub fn verif_dir() -> String {
 pub fn families(property: &str, tier: &str) -> Vec<Family> {
     let thorough = tier == "thorough";
     match property {
-        "C01" | "C02" | "C03" | "C04" | "C05" | "C07" => vec![Family { name: "hist", weight: 1, gen: crate::hist::generate }],
+        "C01" | "C02" | "C04" => vec![Family { name: "hist", weight: 1, gen: crate::hist::generate }],
+        "C03" => vec![Family { name: "hist", weight: 1, gen: crate::hist::generate }, Family { name: "tap", weight: 2, gen: crate::net::generate_tap }],
+        "C05" => vec![Family { name: "hist", weight: 2, gen: crate::hist::generate }, Family { name: "store", weight: 1, gen: crate::net::generate_store }],
+        "C07" => vec![Family { name: "hist", weight: 2, gen: crate::hist::generate }, Family { name: "replica", weight: 1, gen: crate::replica::generate }],
         "C06" => vec![
             Family { name: "wire", weight: if thorough { 20 } else { 60 }, gen: crate::wire::generate },
             Family { name: "wire-enum", weight: if thorough { 10 } else { 1 }, gen: crate::wire::generate_enum },
@@ -48,6 +51,9 @@ pub fn dispatch(scn: &Scenario, ctx: &mut Ctx) -> Result<(), String> {
     match scn.family.as_str() {
         "hist" => crate::hist::run(scn, ctx),
         "wire" => crate::wire::run(scn, ctx),
+        "replica" => crate::replica::run(scn, ctx),
+        "tap" => crate::net::run_tap(scn, ctx),
+        "store" => crate::net::run_store(scn, ctx),
         "tamper" => crate::tamper::run(scn, ctx),
         "panics" => crate::panics::run(scn, ctx),
         "salt" => crate::ext::run_salt(scn, ctx),
